@@ -41,6 +41,10 @@ func Equal(a, b any) bool { //nolint: gocyclo
 		}
 		return a == b
 	default:
+		// == panics on maps, functions and other uncomparable values
+		if !ra.Type().Comparable() || !rb.Type().Comparable() {
+			return reflect.DeepEqual(a, b)
+		}
 		return a == b
 	}
 }
